@@ -164,6 +164,8 @@ def api_cases(_=None):
       'set_tags@index-po': lambda c: fdl.set_tags(c, 0, {pool.TagA}),
       'remove_tag@index': lambda c: (fdl.add_tag(c, 2, pool.TagA), fdl.remove_tag(c, 2, pool.TagA)),
       'clear_tags@index': lambda c: (fdl.add_tag(c, 'c', pool.TagA), fdl.clear_tags(c, 2)),
+      # update_callable dropping arguments the new callable does not accept: each dropped argument
+      # is an edit of that argument (its history ends with the deletion marker)
       'tagged-value assign': lambda c: (fdl.add_tag(c, 'k', pool.TagA), setattr(c, 'k', pool.TagB.new(9))),
       'assign': lambda c: fdl.assign(c, c='C', k='K'),
       'materialize_defaults': lambda c: (c.__delitem__(1), delattr(c, 'k'), materialize.materialize_defaults(c)),
@@ -218,6 +220,20 @@ def api_cases(_=None):
   es = c.__argument_history__['__fn_or_cls__']
   if es[-1].new_value is not pool.fb2 or es[-1].sequence_id <= mx:
     bad('update_callable did not append the new callable to the history', 'update_callable')
+  # update_callable dropping the arguments the new callable does not accept: an edit of each
+  n += 1
+  c = fdl.Config(pool.fk, x=1, lr=0.1, mode='m')
+  fdl.add_tag(c, 'lr', pool.TagA)
+  mx = max(all_seq(c))
+  fdl.update_callable(c, pool.fb, drop_invalid_args=True)
+  if set(c.__arguments__) != {'x'}:
+    bad(f'update_callable(drop_invalid_args=True) left the arguments {sorted(c.__arguments__)}', 'update_callable@drop')
+  for p_ in check_hist_state(c, 'update_callable@drop'):
+    bad(p_, 'update_callable@drop')
+  for k in ('lr', 'mode'):
+    es = c.__argument_history__.get(k, [])
+    if not es or es[-1].new_value is not history.DELETED or es[-1].sequence_id <= mx:
+      bad(f'update_callable dropped {k!r} without a deletion entry in its history', 'update_callable@drop')
   # copy_with: the copy's history ends with the new value, original untouched
   n += 1
   c = fresh()
